@@ -345,6 +345,55 @@ def ancestors(d, a):
     return out
 
 
+def eval_tree(d):
+    """The declared value of the requested type as a tree: ('arg', t) | ('field', (_, structIndex, fname), subtree) |
+    ('app', providerIndex, gi, [subtrees]).  tree_str renders it exactly as eval_ref's result string (and as the runtime's
+    value string); tree_sval renders it as a Spec.sval for the Coq specification spec_eval."""
+    m, err = supplier_map(d)
+    if err:
+        return None
+    def term(t, depth=0):
+        if depth > 300:
+            raise RecursionError("cyclic declaration")
+        if t not in m:
+            return ("arg", t)
+        key, gi = m[t]
+        if isinstance(key, tuple):
+            return ("field", key, term(d["provs"][key[1]]["type"], depth + 1))
+        return ("app", key, gi, [term(r, depth + 1) for r in d["provs"][key]["requires"]])
+    return term(d["ret"])
+
+
+def tree_str(d, tr):
+    if tr[0] == "arg":
+        return "ctx" if tr[1] == CTX else "A:" + tr[1]
+    if tr[0] == "field":
+        return tree_str(d, tr[2]) + "." + tr[1][2]
+    p = d["provs"][tr[1]]
+    if p["kind"] == "value":
+        return "V:" + p["var"]
+    return p["fn"] + "(" + ",".join(tree_str(d, a) for a in tr[3]) + ")" + "#%d" % tr[2]
+
+
+def tree_sval(d, tr, tt):
+    """Gallina term of type Spec.sval; field providers are numbered as Gen.pass2 numbers them: after the declared
+    providers, struct by struct in declaration order, field by field."""
+    fidx = {}
+    n = len(d["provs"])
+    for i, p in enumerate(d["provs"]):
+        if p["kind"] == "struct":
+            for (fname, ftype) in p["fields"]:
+                fidx[(i, fname)] = n
+                n += 1
+    def go(tr):
+        if tr[0] == "arg":
+            return "SArgT %d%%N" % tt[tr[1]]
+        if tr[0] == "field":
+            return "SApp %d 0 [%s]" % (fidx[(tr[1][1], tr[1][2])], go(tr[2]))
+        return "SApp %d %d [%s]" % (tr[1], tr[2], "; ".join(go(a) for a in tr[3]))
+    return go(tr)
+
+
 def eval_ref(d):
     """Reference evaluation: (term of the requested type, call log {provider name: [arg terms]}, unsupplied types in first-use order)
     Terms: A<type> for arguments, "<fn>.<gi>(args)" for provider results, "<term>.Fld" for fields, "V:<var>" for values."""
@@ -375,6 +424,7 @@ def eval_ref(d):
             return memo[key]
         return memo[key] + "#%d" % gi
     res = term(d["ret"])
+    assert res == tree_str(d, eval_tree(d))     # one reference value, two renderings (runtime string, Spec.sval)
     return dict(result=res, calls=calls, unsupplied=unsupplied)
 
 
